@@ -1,9 +1,10 @@
 """C03 — parsing neither loses nor duplicates document text.
 
-Decided by (Lean): the partition theorems of the scanner loops (`blockLoop_total` / `inlineLoop_total` with
-`EventChain`: the iterations' spans are contiguous from the start cursor to the end of the source — no gap, no
-overlap, for ANY rule table and handler returns that satisfy the progress contract), tied to the code by the
-loop-trace replay; and `iterRender_length`/`iterRender_shape` for the second pass.  That each HANDLER keeps the
+Decided by (Lean): the partition theorems of the scanner loops (`blockLoop_partition*` / `inlineLoop_partition*`,
+`MistuneProofs/C03Partition.lean`: holes, handled spans, declined spans and the tail tile the source from the start
+cursor to its end — no gap, no overlap, texts concatenate to the source, no rule matches inside a hole — for ANY
+rule table and handler returns that satisfy the progress contract), tied to the code by the loop-trace replay
+(the real loops' iterations on this run's documents replayed through the model loops); and `iterRender_length`/`iterRender_shape` for the second pass.  That each HANDLER keeps the
 words of the span it consumed is not a theorem: it is the word-multiset oracle below (with the MISTUNE_VERIF
 hook giving the exact slices of consumed reference definitions)."""
 import re, json
@@ -12,7 +13,12 @@ import common, gen, configs
 
 LEVEL = "proof"
 THEOREMS = ["Mistune.blockLoop_total", "Mistune.inlineLoop_total", "Mistune.blockLoop_iterations", "Mistune.scan_sound",
-            "Mistune.iterRender_length", "Mistune.iterRender_shape"]
+            "Mistune.iterRender_length", "Mistune.iterRender_shape",
+            # the loops PARTITION the source: holes (-> paragraph text / text tokens), handled spans, declined spans and the tail tile [cursor, n) without gap or
+            # overlap, their texts concatenate to the source, and no rule matches anywhere inside a hole or the tail
+            "Mistune.blockLoop_partition", "Mistune.blockLoop_partition_disjoint", "Mistune.blockLoop_partition_concat", "Mistune.blockLoop_holes_unclaimed", "Mistune.blockLoop_kinds",
+            "Mistune.blockLoop_partition_total", "Mistune.inlineLoop_partition", "Mistune.inlineLoop_partition_disjoint", "Mistune.inlineLoop_partition_concat", "Mistune.inlineLoop_holes_unclaimed",
+            "Mistune.inlineLoop_kinds", "Mistune.inlineLoop_partition_total"]
 
 WORD = re.compile(r"[A-Za-z]+")
 PLUGIN_SETS = [[], ["task_lists"], ["task_lists", "table", "def_list"], ["table"], ["def_list"], ["strikethrough", "mark", "insert", "superscript", "subscript"], ["speedup"], ["spoiler"],
@@ -265,6 +271,8 @@ def run(ctx):
     docs = [doc(ctx.rng) for _ in range(3000 if ctx.quick() else 40000)]
     common.model_tie(ctx, docs, 'core', 'doc', limit=(1200 if ctx.quick() else 12000))
     common.model_tie(ctx, docs[::3], 'core-hardwrap', 'doc', limit=(400 if ctx.quick() else 4000))
+    import importlib
+    importlib.import_module("props.c01").trace_correspondence(ctx, docs[:250 if ctx.quick() else 2500], [configs.C("core"), configs.C("all", plugins=configs.PLUGINS)])
     n = oracle(ctx, docs)
     n += unique_word_part(ctx, 600 if ctx.quick() else 8000)
     if ctx.broken and not ctx.failures:
